@@ -63,6 +63,11 @@ BUILDS = {
     'lessslow': (['cargo', 'build', '--release', '--offline', '--features', 'less-slow'], {}, 'lessslow', 'release/encsim'),
     'fast': (['cargo', 'build', '--release', '--offline', '--features', 'fast-legacy'], {}, 'fast', 'release/encsim'),
     'simd': (['cargo', '+nightly', 'build', '--release', '--offline', '--features', 'simd'], {}, 'simd', 'release/encsim'),
+    # assertions-off variants of the feature builds (C17 falls back to them when the code under test makes the
+    # assertion-carrying builds abort)
+    'lessslow-nd': (['cargo', 'build', '--profile', 'nodebug', '--offline', '--features', 'less-slow'], {}, 'lessslow', 'nodebug/encsim'),
+    'fast-nd': (['cargo', 'build', '--profile', 'nodebug', '--offline', '--features', 'fast-legacy'], {}, 'fast', 'nodebug/encsim'),
+    'simd-nd': (['cargo', '+nightly', 'build', '--profile', 'nodebug', '--offline', '--features', 'simd'], {}, 'simd', 'nodebug/encsim'),
     'asan': (['cargo', '+nightly', 'build', '--release', '--offline', '--features', 'asan', '--target', 'x86_64-unknown-linux-gnu'],
              {'RUSTFLAGS': '-Zsanitizer=address'}, 'asan', 'x86_64-unknown-linux-gnu/release/encsim'),
 }
